@@ -198,7 +198,7 @@ func main() {
 	var cases []*BuildCase
 	keys := []string{}
 	sw := newScopeWriter(*out, 240<<10)
-	scopeRuns := 0
+	scopeRuns, rejectCases := 0, 0
 	for pi, p := range progs {
 		src := filepath.Join(work, fmt.Sprintf("src%d", pi))
 		for n, t := range p.Files {
@@ -222,6 +222,17 @@ func main() {
 					bc.Output = bc.Output[:1500]
 				}
 				os.RemoveAll(outdir)
+				if strings.Contains(output, "failed to reserve") {
+					rc, term, rerr := rejectCaseFor(p, src, be, output)
+					if rerr != nil {
+						fmt.Fprintln(os.Stderr, "reject case:", p.Name, be, rerr)
+						os.Exit(2)
+					}
+					if rc != nil {
+						sw.Add(term, rc, 0)
+						rejectCases++
+					}
+				}
 			} else {
 				bc.ParseBad, bc.NFiles = gobuild.ParseAll(outdir)
 				if len(bc.ParseBad) == 0 && (*scopeAll || scopeSelected(*tier, p, pi, oi)) {
@@ -231,7 +242,7 @@ func main() {
 						os.Exit(2)
 					}
 					for k := range sc {
-						sw.Add(terms[k], sc[k])
+						sw.Add(terms[k], sc[k], 1+len(sc[k].Declared.Types))
 					}
 					if len(sc) > 0 {
 						scopeRuns++
@@ -287,7 +298,7 @@ func main() {
 		"shards": append(w.Shards, sw.Shards...), "total": w.Total() + sw.Total,
 		"stats": map[string]interface{}{
 			"evaluations": nsEval + bEval + sw.Total, "distinct_nontrivial": nsNontrivial + bNontrivial + sw.Total,
-			"scope_cases": sw.Total, "scope_runs": scopeRuns, "scope_tables_compared": sw.Tables,
+			"scope_cases": sw.Total - rejectCases, "reserve_failure_cases": rejectCases, "scope_runs": scopeRuns, "scope_tables_compared": sw.Tables,
 			"rule":    "namespace case: random Add/Reserve/Get/ID sequence on the real pkg/namespace, non-trivial when some Add had to rename; build case: (program, option set) through thriftgo + go/parser + go build, non-trivial when thriftgo accepted it and wrote Go files; scope case: one Go package directory of an accepted run, its declared identifiers / members / parameter names (go/parser) against the name tables the model computes from the resolved IDL files, always non-trivial",
 			"samples": samples, "namespace_cases": nsEval, "namespace_cases_with_rename": renamed,
 			"build_cases": bEval, "build_cases_accepted": bNontrivial, "rejected_by_impl": rejected, "option_sets": optHist, "programs": len(progs),
